@@ -169,6 +169,15 @@ def impl_run(case):
             if use_c and rn in ("list", "tuple"):
                 continue
             run(rn, lambda x: [float(v) for v in dtw_barycenter.dba(x, x[0], use_c=use_c, **kk)], ss)
+            if np is not None and rn not in ("list", "tuple"):
+                # the iterated routine starts from a series of the collection (c=None) or from the caller's array:
+                # neither may be written to, with or without the convergence test (thr)
+                for thr in (0.001, None):
+                    run(rn + "#loop_thr=%s" % thr,
+                        lambda x: [float(v) for v in dtw_barycenter.dba_loop(x, c=None, max_it=2, thr=thr, use_c=use_c, **kk)], ss)
+                    c0 = np.array(case["series"][1], dtype=np.double)
+                    run(rn + "#loop_c_thr=%s" % thr,
+                        lambda x, c: [float(v) for v in dtw_barycenter.dba_loop(x, c=c, max_it=2, thr=thr, use_c=use_c, **kk)], ss, c0)
         elif op == "ssearch":
             from dtaidistance.subsequence.subsequencesearch import SubsequenceSearch
             run(rn, lambda q, x: [[float(m.distance), int(m.idx)] for m in
@@ -213,23 +222,31 @@ def judge(case, got, exp):
     names = sorted(vs)
     if not names:
         return {"kind": "no-variant-ran"}
-    pref = [n for n in ("np_c", "C", "numpy_on") if n in vs]
-    refname = pref[0] if pref else names[0]
-    ref = vs[refname]
-    if isinstance(ref, dict) and "exc" in ref:
-        return {"kind": "reference-variant-raises", "differs": refname, "got": ref}
-    out = []
-    seen = set()
+    # variants are named  <container>[#<operation tag>][#again] ; results are compared within one operation
+    groups = {}
     for nme in names:
-        if vs[nme] != ref:
-            base = nme.split("#")[0]
-            if base in seen:
-                continue
-            seen.add(base)
-            kind = "result-depends-on-container-or-history"
-            if isinstance(vs[nme], dict) and "exc" in vs[nme]:
-                kind = "container-raises:" + vs[nme]["exc"]
-            out.append({"kind": kind, "reference": refname, "differs": base, "ref": ref, "got": vs[nme]})
+        parts = [p for p in nme.split("#") if p != "again"]
+        groups.setdefault("#".join(parts[1:]), []).append(nme)
+    out = []
+    for tag, members in sorted(groups.items()):
+        def cont(n):
+            return n.split("#")[0]
+        pref = [n for n in members if cont(n) in ("np_c", "C", "numpy_on") and not n.endswith("#again")]
+        refname = pref[0] if pref else members[0]
+        ref = vs[refname]
+        if isinstance(ref, dict) and "exc" in ref:
+            return {"kind": "reference-variant-raises", "differs": refname, "got": ref}
+        seen = set()
+        for nme in members:
+            if vs[nme] != ref:
+                base = cont(nme)
+                if base in seen:
+                    continue
+                seen.add(base)
+                kind = "result-depends-on-container-or-history"
+                if isinstance(vs[nme], dict) and "exc" in vs[nme]:
+                    kind = "container-raises:" + vs[nme]["exc"]
+                out.append({"kind": kind, "reference": refname, "differs": base + ("#" + tag if tag else ""), "ref": ref, "got": vs[nme]})
     return out or None
 
 
